@@ -15,7 +15,7 @@ collinearity, the merged line is dashed if any part is), otherwise such boxes ar
 import re
 
 from ..common import guards, short, where
-from ..exprs import closure_of, is_const, is_param, mentions, strip
+from ..exprs import inline_calls, simplify, closure_of, is_const, is_param, mentions, strip
 from ..mirlib import op_place, Expr, Program, expr_str
 
 
@@ -209,7 +209,8 @@ def run(run):
         av = dict(zip(names, args))
         # extent
         for nm, ext in (("start", "min"), ("end", "max")):
-            a = av[nm]
+            # helper extraction, `?` and match/if-let variants are normalised away first
+            a = strip(simplify(inline_calls(prog, av[nm], keep=r"Bounds>::bounds$|::is_rect$|::is_rounded_rect$")))
             ok = a[0] == "field" and "@Some" in a[2] and strip(a[1])[0] == "call" and strip(a[1])[1].endswith("Iterator::" + ext)
             src_ok = False
             if ok:
@@ -219,6 +220,29 @@ def run(run):
                     it = strip(fold[0][2][0])
                     cl, _ = closure_of(fold[0][2][2])
                     src_ok = it[0] == "call" and it[1].endswith("<impl [T]>::iter") and strip(it[2][0]) == ("param", 1, ()) and fold_pushes_both_bounds(prog, cl)
+                else:
+                    # the same vector built by a `for` loop: every definition is an empty vector or a push of
+                    # bounds(item).0 / bounds(item).1 with item taken from the iteration over all fragments
+                    v = strip(a[1])[2][0]
+                    while strip(v)[0] == "call" and re.search(r"::(iter|deref|into_iter|as_slice)$", strip(v)[1]):
+                        v = strip(v)[2][0]
+                    v = strip(v)
+                    alts = [strip(x) for x in v[1]] if v[0] == "phi" else [v]
+                    pushed = set()
+                    good = True
+                    for x in alts:
+                        if x[0] == "call" and re.search(r"Vec::<T>::(new|with_capacity)$|vec::from_elem", x[1]):
+                            continue
+                        if x[0] == "mutated_by" and x[1].endswith("Vec::<T, A>::push") and len(x[2]) == 2:
+                            val = strip(x[2][1])
+                            if val[0] == "field" and strip(val[1])[0] == "call" and strip(val[1])[1].endswith("Bounds>::bounds") and \
+                                    mentions(val[1], lambda z: z[0] == "call" and z[1].endswith("Iterator>::next")) and \
+                                    mentions(val[1], lambda z: z[0] == "call" and re.search(r"into_iter$|::iter$", z[1]) and strip(z[2][0]) == ("param", 1, ())) and \
+                                    not mentions(val[1], lambda z: z[0] == "call" and re.search(r"Iterator::(filter|skip|take|step_by|skip_while|take_while)$", z[1])):
+                                pushed.add(tuple(val[2])[-1])
+                                continue
+                        good = False
+                    src_ok = good and pushed == {"0", "1"}
             if ok and src_ok:
                 run.ok("C05.A1", "%s: rect %s = %s over both bound points of all fragments" % (fn, nm, ext), where(b))
             else:
